@@ -79,6 +79,8 @@ structure Frame where
   wodGE : Bool := false
   dcPool : Int := 0
   dcPoints : Int := 0
+  wodSaved : List (Int × Int × Int × Bool) := []   -- the parameters of the enclosing WoD terms while an inner one is being set up / rolled
+  dcSaved : List (Int × Int) := []
   lastPop : LastPop := .none
   blocks : List Nat := []         -- blockStack[0..blockIndex), head = innermost
   fblocks : List Nat := []
